@@ -20,6 +20,7 @@ import (
 	"os"
 	"reflect"
 	"runtime"
+	"runtime/debug"
 	"runtime/metrics"
 	"sort"
 	"strconv"
@@ -76,6 +77,7 @@ type worker struct {
 	skipped   int64
 	maxAlloc  uint64
 	onRunaway func(unit int, c *curCase, allocated uint64)
+	isWorker  bool
 }
 
 // begin announces case #offset of the current unit. It returns false when the case is quarantined.
@@ -108,8 +110,26 @@ func (w *worker) watchdog() {
 			continue
 		}
 		if lim := w.limit.Load(); lim > 0 && now-base > lim {
-			w.onRunaway(w.unitIx, w.cur.Load(), now-base)
-			select {}
+			// The counter above lags (per-P statistics are flushed in steps) and the checking thread may
+			// simply be descheduled. Confirm with exact figures: the same case must still be running and
+			// must keep allocating over three further observation windows.
+			confirmed := true
+			var ms runtime.MemStats
+			runtime.ReadMemStats(&ms)
+			prev := ms.TotalAlloc
+			for k := 0; k < 3 && confirmed; k++ {
+				time.Sleep(15 * time.Millisecond)
+				runtime.ReadMemStats(&ms)
+				if w.seq.Load() != seq || ms.TotalAlloc-prev < 64<<10 {
+					confirmed = false
+				}
+				prev = ms.TotalAlloc
+			}
+			if confirmed && w.limit.Load() == lim {
+				w.onRunaway(w.unitIx, w.cur.Load(), now-base)
+				select {}
+			}
+			lastSeq = 0 // start over
 		}
 		if time.Since(since) > stuckAfter {
 			c := w.cur.Load()
@@ -615,7 +635,7 @@ func workerMain(run *ev.Run, shard, n int) {
 	if shard < len(states) {
 		st = states[shard]
 	}
-	w := &worker{a: newAcc(), thorough: run.Thorough(), quar: map[string]bool{}}
+	w := &worker{a: newAcc(), thorough: run.Thorough(), quar: map[string]bool{}, isWorker: true}
 	var q []string
 	json.Unmarshal([]byte(os.Getenv("VERIF_C11_QUAR")), &q)
 	for _, k := range q {
@@ -705,6 +725,7 @@ func hittingSet(recs []runawayRec, threshold int) map[string]bool {
 func TestCheck(t *testing.T) {
 	log.Root().SetHandler(log.DiscardHandler())
 	runtime.GOMAXPROCS(4)
+	debug.SetGCPercent(1600) // workers keep a few MB live and allocate gigabytes of short-lived values
 	run := ev.Start("exploration")
 	if err := refrlp.SelfTest(); err != nil {
 		ev.Broken("refrlp self test: %v", err)
